@@ -155,7 +155,9 @@ impl Sub for I64 {
             (Num(lhs), Num(rhs)) => match lhs.checked_sub(rhs) {
                 Some(n) => Num(n),
                 None => {
-                    if lhs > 0 && rhs < 0 || lhs < 0 && rhs > 0 {
+                    // an overflow implies that the exact result has the
+                    // sign of `-rhs`
+                    if rhs < 0 {
                         PlusInf
                     } else {
                         MinusInf
